@@ -15,13 +15,13 @@ CLAIMED = {
          "partial for the runtime part: real time and heap are metered on the generated inputs, not proved.",
          "Lean 4 theorem (no-panic, termination) + differential correspondence + metered execution", "9/C01"),
  "C06": ("name_parse_sound/bounds/cursor/complete and the error corollaries proved for all buffers and offsets against the inductive RFC 1035 4.1.4 relation; "
-         "correspondence bounded-exhaustive plus random, each case also checked against the executable reference decoder.",
+         "the error clauses one by one (C06Errors: forward / outside / cut pointers, truncation, label overrun, cursor after the first pointer); correspondence bounded-exhaustive plus random, each case also checked against the executable reference decoder, and names inside the RDATA of every name-bearing type reference-encoded with pointers.",
          "Lean 4 theorem (refinement to an inductive RFC relation) + differential correspondence", "9/C06"),
- "C08": ("header_layout, z_rejected, peek_agrees, flags_algebra, header_roundtrip proved for all 65536 flag words / all flag-set pairs / all opcode-rcode-flag triples (kernel-evaluated tables lifted to all inputs); correspondence exhaustive over the same finite domains.",
+ "C08": ("header_layout, z_rejected, peek_agrees, flags_algebra, header_roundtrip proved for all 65536 flag words / all flag-set pairs / all opcode-rcode-flag triples (kernel-evaluated tables lifted to all inputs); constructors new_query / new_reply / into_reply / set_id / to_cache_flush_record (C08Api); correspondence exhaustive over the same finite domains, every parsed word written back.",
          "Lean 4 theorem (decide +kernel over the full table) + exhaustive correspondence", "9/C08"),
  "C18": ("type/class/qtype/qclass round trips, IANA mnemonics, no aliasing, exact matching and faithful type codes proved for every code; correspondence exhaustive over all 65536 codes and the full matching matrices.",
          "Lean 4 theorem (case analysis over the conversion tables) + exhaustive correspondence", "9/C18"),
- "C05": ("parse_respects_framing, cursor_after_record/question, overrun_rejected/overrun_err, rdata_local proved for every byte string against an independent envelope walker (Spec.walk): entries one-to-one and in order, owner decoded by the RFC relation at the entry's offset, fixed fields equal, cursor after every record = end of its RDLENGTH, RDATA independent of later bytes.",
+ "C05": ("parse_respects_framing, cursor_after_record/question, overrun_rejected/overrun_err, rdata_local proved for every byte string against an independent envelope walker (Spec.walk): entries one-to-one and in order, owner decoded by the RFC relation at the entry's offset, fixed fields equal, cursor after every record = end of its RDLENGTH, RDATA independent of later bytes; parse_ignores_trailing (C05Trailing): a parsed message is unaffected by appended bytes, at every level.",
          "Lean 4 theorem (refinement to an independent envelope walker) + differential correspondence", "9/C05"),
  "C17": ("name_new_iff, label_new_iff, display_new, subdomain_iff, without_iff, link_local_iff proved for all texts/names against the label grammar written from the property; correspondence bounded-exhaustive.",
          "Lean 4 theorem (equivalence with a declarative grammar) + bounded-exhaustive correspondence", "9/C17"),
@@ -29,15 +29,15 @@ CLAIMED = {
          "Lean 4 theorem (round trips over core's UTF-8 theory) + differential correspondence", "9/C19"),
  "C02": ("build_parse: for every well-formed packet (explicit decidable WF = DNS field widths and size limits; a non-trivial sample packet is shown to satisfy it) Packet.parse (Packet.build p) = ok p, with name/question/record/RDATA round trips embedded in arbitrary context; unbounded in sizes. The excluded point TXT-without-strings is executed on every run and is the recorded known finding txt-no-strings.",
          "Lean 4 theorem (round trip by induction over the schema table and sections) + differential correspondence", "9/C02"),
- "C03": ("compressed_transparent and compressed_same_as_plain: for every well-formed packet of any size the compressed serialisation parses to the same packet and is never longer; proved by the table invariant 'every entry is a valid backward-pointer encoding at an offset <= 0x3FFF, or pending' (compress_append_spec).",
+ "C03": ("compressed_transparent and compressed_same_as_plain: for every well-formed packet of any size the compressed serialisation parses to the same packet and is never longer; proved by the table invariant 'every entry is a valid backward-pointer encoding at an offset <= 0x3FFF, or pending' (compress_append_spec); compressed_not_longer without any well-formedness hypothesis (C03Length).",
          "Lean 4 theorem (invariant over the append-only compressing writer) + differential correspondence", "9/C03"),
  "C13": ("reply_sound, reply_complete_exact, additional_sound, reply_header, no_empty_reply proved for every store satisfying the invariant maintained by all operation sequences (hence every reachable store), every query and every clock value; key_prefix_iff shows the store key is label-wise prefix-decodable.",
          "Lean 4 theorem (invariant by induction over operations + refinement to an abstract map) + differential correspondence", "9/C13"),
- "C20": ("cache_expiry, cached_lifetime_history, expired_never_returned, auth_never_expires, auth_not_in_cache_only, auth_until_removed proved over every operation history with the clock as a parameter (refinement abs_run to an abstract record -> kind map); partial in that the runtime clock is observed through real sleeps with measured intervals.",
+ "C20": ("cache_expiry, cached_lifetime_history, expired_never_returned, auth_never_expires, auth_not_in_cache_only, auth_until_removed proved over every operation history with the clock as a parameter (refinement abs_run to an abstract record -> kind map); partial in that the runtime clock is observed through real sleeps with measured intervals; the refresh clock (C20Refresh: refresh never after expiry on every history, get_next_refresh = earliest refresh time already past, expired entries stay due).",
          "Lean 4 theorem (refinement over histories, explicit clock) + real-time differential correspondence", "9/C20"),
  "C09": ("opt_record_layout_partial (position, owner, TYPE, CLASS = UDP size, option triples, ARCOUNT, header low nibble of every well-formed packet with EDNS data), rcode_split / rcode_recombine for all 13 codes, opt_lift (parse side over walked entries) proved; the TTL octet order is the library's, which optTtl_is_byteswapped / optTtl_ne_rfc prove to be the byte-swap of RFC 6891's and different from it: that deviation is the recorded known finding opt-ttl-byte-order, hence partial.",
          "Lean 4 theorem (layout against the RFC 6891 spec, deviation proved explicitly) + differential correspondence", "9/C09"),
- "C10": ("schema_matches_rfc (the model's 38-row layout table equals the table written from the RFCs with IANA codes), rfc_encoding (serialising any in-range field tuple yields the RFC reference encoding byte for byte), rfc_parse / rfc_parse_record (parsing that encoding yields the values), rfc_ipseckey, reject rules (LOC version, unordered SVCB/NSEC keys, inner length overruns are .err, never panic) proved; the per-type Rust code is tied to the table by the correspondence.",
+ "C10": ("schema_matches_rfc (the model's 38-row layout table equals the table written from the RFCs with IANA codes), rfc_encoding (serialising any in-range field tuple yields the RFC reference encoding byte for byte), rfc_parse / rfc_parse_record (parsing that encoding yields the values), rfc_ipseckey, reject rules (LOC version, unordered SVCB/NSEC keys, inner length overruns are .err, never panic) proved; the SVCB / HTTPS builder API (C10Svcb: every call sequence yields the RFC 9460 encoding and parses back; SvcParamValues of section 7); the per-type Rust code is tied to the table by the correspondence and by the regenerated tables of Props/Tie.lean.",
          "Lean 4 theorem (equality with a declarative RFC schema + reference encoder) + differential correspondence", "9/C10"),
  "C11": ("parse_image_wf_core (everything the parser returns satisfies the well-formedness C02/C03 need, clause by clause), reserialise_stable and reparse_idempotent proved under the explicit hypothesis PlainFits (the re-encoded RDATA fits 16 bits), which is proved for every input of at most 65304 bytes or with every RDLENGTH at most 65281; for the remaining inputs the proof attempt produced a genuine counterexample (known finding rdata-expands-past-65535), hence partial.",
          "Lean 4 theorem (parser image satisfies the round-trip precondition) + differential correspondence", "9/C11"),
